@@ -41,8 +41,7 @@ ASSUMPTIONS = ['a positive write-flash reply (header 0xFF, (id, 0x18), status 1)
                'get-info replies on a link are genuine (only the connected copter answers (id, 0x10) packets; it may lose, delay or interleave unrelated packets); '
                'a copter reports a fixed geometry per target; one link per copter at a time',
                'flash() orchestration (zip/manifest, soft-device upgrade, deck flashing), read_flash, reset handshakes and scan are outside the model; '
-               'start_bootloader(cold) / flash(.bin) / close are compared through their expansion into the modelled loader operations',
-               'KNOWN (D26): a loader object re-connected to a copter with a different nRF51 geometry answers request_info_update from its cache']
+               'start_bootloader(cold) / flash(.bin) / close are compared through their expansion into the modelled loader operations']
 RULE = ('cases = (flash) geometry x image length x outcome script x stale receive queue x override x terminate/progress callbacks: every length 0..2 buffer-fulls+ for '
         'small adversarial geometries (page 1..51, buffers 1..5), lengths around every page/buffer/capacity multiple otherwise, the real nRF51/STM32 geometries through the '
         'real getInfo handler; (upload) every buffer length 0..79 + multiples of 25 and 16-bit address overflow; (wflash) EVERY script of length <= 3 over 8 outcome kinds, '
@@ -335,6 +334,13 @@ def extract(ctx):
     g.strings('checkLinkDefaults', [ast.unparse(d) for d in ck.args.defaults])
     ob = X.find(cl, 'open_bootloader_uri')
     g.strings('openLinkAssigns', sorted({ast.unparse(n.targets[0]) for n in ast.walk(ob) if isinstance(n, ast.Assign)}))
+    # the cache is forgotten before the new link exists: unconditional top-level statements of open_bootloader_uri,
+    # placed before the statement that creates the new driver
+    top = [ast.unparse(s_) for s_ in ob.body if isinstance(s_, ast.Assign)]
+    newlink = [i for i, s_ in enumerate(ob.body) if any(isinstance(n, ast.Call) and ast.unparse(n.func).endswith('get_link_driver') for n in ast.walk(s_))]
+    X.expect(len(newlink) == 1, 'open_bootloader_uri: expected one statement creating the new link driver')
+    g.strings('openLinkResets', [ast.unparse(s_) for s_ in ob.body[:newlink[0]] if isinstance(s_, ast.Assign)])
+    g.strings('openLinkTopAssigns', top)
     tt = X.class_consts('cflib/bootloader/boottypes.py', 'TargetTypes')
     g.nat('targetSTM32', tt['STM32'])
     g.nat('targetNRF51', tt['NRF51'])
@@ -1523,6 +1529,7 @@ def history_failures(h, out, copters, flashes):
         connected, read_from = info.get(f['op'], (None, None))
         for key, what, detail in fails:
             stale_own = read_from is not None and read_from != connected
+            # D26 (fixed in c1a3150): the entry predates the current connection of this loader object - a violation if it comes back
             k2 = 'stale-geometry-after-reconnect' if stale_own else 'geometry-of-this-connection:' + key
             res_.append((k2, what + ' (geometry reported by the target of this connection: start page %d, %d flash pages)' % (sp, fp), detail, f['op']))
     return res_
